@@ -149,9 +149,11 @@ def branch(func, selector, where):
         return body
     if selector.startswith("if:"):
         want = selector[3:]
-        for st in body:
+        for k, st in enumerate(body):
             if isinstance(st, ast.If) and ast.unparse(st.test) == want:
-                return st.body
+                # whatever the function does before it tests for the fast path belongs to the fast path too
+                # (since F53 Lock/Semaphore.acquire check for cancellation first); same grammar, fail-closed
+                return body[:k] + st.body
         raise Refuse(f"{where}: branch `if {want}` not found")
     if selector.startswith("prefix:"):
         # statements up to (excluding) the first one whose source starts with the marker
